@@ -90,8 +90,6 @@ package verifspec
 //@   ensures result != nil && newobj(result) && len(result.FullName) > 0 && result.FullName[0] == 102
 //@ extern compiler.funcContext.knownInstances
 //@   param fc o
-//@ extern compiler.funcContext.objectName
-//@   param fc o
 //@ extern compiler.funcContext.CatchOutput
 //@   param fc indent f
 //@ extern compiler.Decl.Dce
@@ -101,6 +99,8 @@ package verifspec
 //@   param id o tNest tArgs
 //@ extern compiler/internal/typeparams.Instance.IsTrivial
 //@   param i
+//@   assigns nothing
+//@   ensures result == (len(i.TArgs) == 0 && len(i.TNest) == 0)
 //@ extern go/types.object.Name
 //@   param o
 //@ extern go/types.object.Exported
@@ -123,7 +123,9 @@ package verifspec
 // (the type assertion on the type checker's Defs entry is outside this contract: a panic there aborts the build)
 //@   panics_only_if true
 //@   requires fc != nil && fc.pkgCtx != nil && forall(k, 0, len(functions), functions[k] != nil)
+//@   loop 1 assigns heap(pkgContext.pkgVars), heap(funcContext.allVars), heap(funcContext.localVars), heap(funcContext.objectNames)
 //@   loop 1 invariant forall(k, 0, len(funcDecls), funcDecls[k] != nil && len(funcDecls[k].FullName) > 0 && funcDecls[k].FullName[0] == 102)
+//@   loop 2 assigns heap(pkgContext.pkgVars), heap(funcContext.allVars), heap(funcContext.localVars), heap(funcContext.objectNames)
 //@   loop 2 invariant forall(k, 0, len(funcDecls), funcDecls[k] != nil && len(funcDecls[k].FullName) > 0 && funcDecls[k].FullName[0] == 102)
 //@   ensures err == nil && isMainPkg(ref(fc.pkgCtx)) ==> len(decls) > 0 && decls[len(decls) - 1].FullName == "init:main"
 //@   ensures err == nil && isMainPkg(ref(fc.pkgCtx)) ==> forall(k, 0, len(decls) - 1, decls[k].FullName[0] == 102)
